@@ -121,58 +121,75 @@ def key_wellformed(key: bytes) -> bool:
 VALID, INVALID, UNSPEC, NOT_WS = "valid", "invalid", "unspec", "not-ws"
 
 
-def classify_h1(method: bytes, http_version: bytes, headers: List[Tuple[bytes, bytes]]) -> Tuple[str, bool]:
-    """(verdict, pure) for an HTTP/1.x request.
+def classify_h1(method: bytes, http_version: bytes, headers: List[Tuple[bytes, bytes]]) -> Tuple[str, bool, str]:
+    """(verdict, strict, reason) for an HTTP/1.x request.
 
     NOT_WS : the request does not ask for the websocket upgrade (RFC 7230 6.7: Upgrade is only meaningful
              together with `Connection: upgrade`): it is an ordinary request, never an upgrade.
-    VALID  : RFC 6455 4.2.1 / the property: HTTP/1.1+, GET, Upgrade: websocket, Connection: upgrade, a key,
+    VALID  : RFC 6455 4.2.1 / the property: HTTP/1.1, GET, Upgrade: websocket, Connection: upgrade, a key,
              version 13, each stated once and plainly -> the upgrade must be attempted.
     INVALID: asks for the upgrade but misses a requirement -> never an upgrade.
-    UNSPEC : asks for the upgrade in a way on which the texts leave the server a choice (several Upgrade
-             protocols, repeated singleton headers with differing values, a key that is not 16 base64 bytes):
-             either outcome is accepted, but it must be a consistent one.
-    pure   : Upgrade names websocket and nothing else (so "served as ordinary HTTP" is not an expected reading).
+    UNSPEC : meets the requirements but in a way on which the texts leave the server a choice (several Upgrade
+             protocols / Upgrade or Connection header lines, repeated singleton headers with differing values,
+             a key that is not 16 base64 bytes): upgrading, refusing with 400 and ignoring the Upgrade are all
+             accepted, but the outcome must be a consistent one.
+    strict : the request is a GET whose only Upgrade protocol is websocket, stated in one Upgrade and one
+             Connection header line: reading it as an ordinary request (RFC 7230 6.7 allows a server to
+             ignore Upgrade) is not expected, an invalid one must get the 400.
+    reason : short cause for violation keys.
     """
-    upg = _tokens(_get(headers, b"upgrade"))
-    con = _tokens(_get(headers, b"connection"))
+    upg_lines = _get(headers, b"upgrade")
+    con_lines = _get(headers, b"connection")
+    upg = _tokens(upg_lines)
+    con = _tokens(con_lines)
     keys = _get(headers, b"sec-websocket-key")
     vers = [v.strip() for v in _get(headers, b"sec-websocket-version")]
     if "websocket" not in upg or "upgrade" not in con:
-        return NOT_WS, False
-    pure = set(upg) == {"websocket"}
-    if method != b"GET" or http_version not in (b"1.1",):
-        return INVALID, pure
+        return NOT_WS, False, "no-upgrade-request"
+    plain = set(upg) == {"websocket"} and len(upg_lines) == 1 and len(con_lines) == 1
+    strict = plain and method == b"GET"
+    if method != b"GET":
+        return INVALID, strict, "method"
+    if http_version != b"1.1":
+        return INVALID, strict, "http-version"
     if not keys:
-        return INVALID, pure
+        return INVALID, strict, "no-key"
     if not any(v == b"13" for v in vers):
-        return INVALID, pure
-    if len(set(vers)) > 1 or len(set(keys)) > 1 or not pure or not all(key_wellformed(k) for k in keys):
-        return UNSPEC, pure
-    return VALID, pure
+        return INVALID, strict, "version"
+    if len(set(vers)) > 1:
+        return UNSPEC, strict, "versions-differ"
+    if len(set(keys)) > 1:
+        return UNSPEC, strict, "keys-differ"
+    if not all(key_wellformed(k) for k in keys):
+        return UNSPEC, strict, "key-malformed"
+    if not plain:
+        return UNSPEC, strict, "upgrade-not-plain"
+    return VALID, strict, "valid"
 
 
-def classify_h2(headers: List[Tuple[bytes, bytes]]) -> str:
-    """RFC 8441 4: extended CONNECT = :method CONNECT with :protocol websocket (and :scheme, :path,
-    :authority); the property adds version 13."""
+def classify_h2(headers: List[Tuple[bytes, bytes]]) -> Tuple[str, str]:
+    """(verdict, reason).  RFC 8441 4: a websocket handshake over HTTP/2 is an *extended* CONNECT, i.e.
+    :method CONNECT with :protocol websocket and :scheme, :path, :authority; the property adds version 13."""
     d: Dict[bytes, List[bytes]] = {}
     for n, v in headers:
         d.setdefault(n.lower(), []).append(v)
     if d.get(b":method") != [b"CONNECT"]:
-        return NOT_WS
+        return NOT_WS, "not-connect"
     proto = d.get(b":protocol")
     if proto is None:
-        return INVALID  # plain CONNECT (a tunnel request), not a websocket handshake
+        return INVALID, "plain-connect"  # a tunnel request (RFC 7540 8.3), not a websocket handshake
     if [p.lower() for p in proto] != [b"websocket"]:
-        return INVALID
+        return INVALID, "protocol-not-websocket"
     if b":path" not in d or b":scheme" not in d:
-        return INVALID
+        return INVALID, "no-path-or-scheme"
     vers = [v.strip() for v in d.get(b"sec-websocket-version", [])]
     if not any(v == b"13" for v in vers):
-        return INVALID
+        return INVALID, "version"
     if len(set(vers)) > 1:
-        return UNSPEC
-    return VALID
+        return UNSPEC, "versions-differ"
+    if proto != [b"websocket"]:
+        return UNSPEC, "protocol-odd-case"
+    return VALID, "valid"
 
 
 # ---------------------------------------------------------------------------------------------
